@@ -26,6 +26,8 @@ TU = "scriptplan/_cython/time_utils_cy.pyx"
 MP = "scriptplan/parser/macro_processor.py"
 
 MUTANTS = [
+    # ------------------------------------------------------------------ revert of repaired defect F77 (C11)
+    ("c11_backward_deadline_beyond_horizon_unchecked", "C11", [(TS, "                    if self.currentSlotIdx > self.project.dateToIdx(self.project[\"end\"]):\n                        self.isRunAway = True\n                        return False\n", "")]),
     # ------------------------------------------------------------------ revert of repaired defect F76 (C13)
     ("c13_index_times_resolution_in_c_int", "C13", [(TU, "    seconds = <long long>idx * granularity\n", "    seconds = idx * granularity\n")]),
     # ------------------------------------------------------------------ revert of repaired defect F75 (C04 / C07)
